@@ -1,7 +1,7 @@
 (* Model constants against the regenerated source facts (coq/Facts/Facts_c18.v).  A fact srcfacts could not
    recognise is None and imposes nothing ("compared only"); a recognised fact must agree. *)
 From Coq Require Import String.
-From Icv Require Import Base.Tac Perm.PmModel Facts.Facts_c18.
+From Icv Require Import Base.Tac Perm.PmModel Perm.PmObs Perm.PmAttrs Perm.PmFieldTables Facts.Facts_c18.
 Local Open Scope Z_scope.
 
 Definition pm_prefix_ok (f : option (list Z)) (p : list Z) : Prop := match f with Some x => x = p | None => True end.
@@ -40,4 +40,46 @@ Lemma pm_source_facts :
   pm_navs_ok f_pm_nav_host PmHost /\ pm_navs_ok f_pm_nav_service PmService /\ pm_guard_ok f_pm_bind_guard /\
   pm_guard_ok f_pm_perm_ns_private /\
   pm_guard_ok f_pm_join_cache_by_identity /\ pm_guard_ok f_pm_join_type_cache_by_identity /\ pm_guard_ok f_pm_join_attrs_sorted.
+Proof. cbv. repeat split. Qed.
+
+(* ---- round 5: the field tables of the types the object query serialises, regenerated from the .ti files *)
+(* what the attribute theorems need of the real tables: a field whose getter returns a config object is an internal
+   navigation field (no config / state flag), and field names are unique within a type *)
+Definition pm_cur_tables_check : bool :=
+  forallb (fun x => pm_tbl_wf (snd x) && pm_tbl_nodup (snd x)) pm_cur_tables.
+Lemma pm_cur_tables_checked : pm_cur_tables_check = true.
+Proof. vm_compute. reflexivity. Qed.
+
+Lemma pm_cur_table_wf : forall n, pm_tbl_wf (pm_cur_table n) = true.
+Proof.
+  intros n. unfold pm_cur_table. destruct (find _ pm_cur_tables) as [x|] eqn:F; [|reflexivity].
+  apply find_some in F. destruct F as [Hin _]. pose proof pm_cur_tables_checked as C. unfold pm_cur_tables_check in C.
+  eapply forallb_forall in C; [|exact Hin]. apply andb_prop in C. apply C.
+Qed.
+
+(* the navigation fields the joins model uses are the navigation fields of the regenerated tables (Host, Service) *)
+Definition pm_table_navs (tbl : pm_ftable) : list pm_str := map pf_navname (filter pf_nav tbl).
+Definition pm_navs_table_ok (t : pm_type) : Prop :=
+  match find (fun x => pm_str_eqb (fst x) (pm_type_name t)) pm_cur_tables with
+  | Some x => pm_table_navs (snd x) = map pm_scope_zname (pm_nav_vars t)
+  | None => True
+  end.
+Lemma pm_navs_tables_ok : pm_navs_table_ok PmHost /\ pm_navs_table_ok PmService.
+Proof. split; vm_compute; reflexivity. Qed.
+
+Lemma pm_attr_source_facts : pm_guard_ok f_pm_attrs_hide_in_emit_loop.
+Proof. cbv. exact I || reflexivity. Qed.
+
+(* ---- round 5 (e): the handlers act on the pointers GetFilterTargets returned (no second lookup by name between
+   authorisation and action): the configurations of Perm/PmConc.v that describe this source tree *)
+From Icv Require Import Perm.PmConc.
+Definition pm_ccfg_modify : pm_ccfg := {| pc_lock := true; pc_reresolve := false |}.
+Definition pm_ccfg_delete : pm_ccfg := {| pc_lock := true; pc_reresolve := false |}.
+Definition pm_ccfg_actions : pm_ccfg := {| pc_lock := false; pc_reresolve := false |}.
+Definition pm_ccfg_query : pm_ccfg := {| pc_lock := false; pc_reresolve := false |}.
+Definition pm_reresolve_ok (f : option bool) (c : pm_ccfg) : Prop :=
+  match f with Some b => pc_reresolve c = negb b | None => True end.
+Lemma pm_act_source_facts :
+  pm_reresolve_ok f_pm_query_acts_on_pointer pm_ccfg_query /\ pm_reresolve_ok f_pm_modify_acts_on_pointer pm_ccfg_modify /\
+  pm_reresolve_ok f_pm_delete_acts_on_pointer pm_ccfg_delete /\ pm_reresolve_ok f_pm_actions_acts_on_pointer pm_ccfg_actions.
 Proof. cbv. repeat split. Qed.
